@@ -297,6 +297,10 @@ class Wsdl11(XmlSchema):
 
             if method.is_callback:
                 operation = SubElement(cb_port_type, WSDL11("operation"))
+            elif len(port_type_list) > 0 and method.port_type is not None:
+                operation = SubElement(
+                            self._get_or_create_port_type(method.port_type),
+                                                            WSDL11("operation"))
             else:
                 operation = SubElement(port_type, WSDL11("operation"))
 
